@@ -474,8 +474,11 @@ class Interp:
         self.n_feas += 1
         self.solver.push()
         self.solver.add(cond)
-        r = self.solver.check()
+        self.solver.set("timeout", 60000)     # `unknown` counts as feasible: unrolling further is sound,
+        r = self.solver.check()               # termination is guaranteed by the unwinding cap (-> exit 3)
         self.solver.pop()
+        if str(r) == "unknown":
+            self.n_feas_unknown = getattr(self, "n_feas_unknown", 0) + 1
         return str(r) != "unsat"
 
     # ---------- expressions ----------
